@@ -766,35 +766,87 @@ func r48DeviationReported(c *core.Ctx) {
 		return
 	}
 	pix, units := extractOf(calls[0], pixIdx), extractOf(calls[0], unitIdx)
-	var guard *ssa.If
-	trueIdx := 0
-	for _, b := range v.SSA.Blocks {
-		i := core.BlockIf(b)
-		if i == nil {
-			continue
+	// warnIn: in fn, a log call prints `units` exactly on the `pix >= 1` side of a test
+	var warnIn func(fn *ssa.Function, pix, units ssa.Value, depth int) (bool, string)
+	warnIn = func(fn *ssa.Function, pix, units ssa.Value, depth int) (bool, string) {
+		var guard *ssa.If
+		trueIdx := 0
+		for _, b := range fn.Blocks {
+			i := core.BlockIf(b)
+			if i == nil {
+				continue
+			}
+			cmp, ok := i.Cond.(*ssa.BinOp)
+			if !ok {
+				continue
+			}
+			isOne := func(x ssa.Value) bool {
+				k, ok := x.(*ssa.Const)
+				return ok && k.Value != nil && k.Float64() == 1
+			}
+			switch {
+			case pix != nil && cmp.X == pix && isOne(cmp.Y) && cmp.Op == token.GEQ:
+				guard, trueIdx = i, 0
+			case pix != nil && cmp.Y == pix && isOne(cmp.X) && cmp.Op == token.LEQ:
+				guard, trueIdx = i, 0
+			case pix != nil && cmp.X == pix && isOne(cmp.Y) && cmp.Op == token.LSS:
+				guard, trueIdx = i, 1
+			}
 		}
-		cmp, ok := i.Cond.(*ssa.BinOp)
-		if !ok {
-			continue
+		if guard == nil {
+			// the test and the warning in a helper that is handed both figures and cannot be bypassed on the way
+			// to a return
+			if depth < 2 && pix != nil && units != nil {
+				for _, b := range fn.Blocks {
+					for _, in := range b.Instrs {
+						call, ok := in.(*ssa.Call)
+						if !ok {
+							continue
+						}
+						cal := call.Call.StaticCallee()
+						if cal == nil || len(cal.Blocks) == 0 || !core.IsModPath(core.FuncPkgPath(cal)) {
+							continue
+						}
+						pi, ui := -1, -1
+						for k, a := range call.Call.Args {
+							if a == pix {
+								pi = k
+							}
+							if a == units {
+								ui = k
+							}
+						}
+						if pi < 0 || ui < 0 || pi >= len(cal.Params) || ui >= len(cal.Params) {
+							continue
+						}
+						from := ssa.Instruction(nil)
+						if pi, isI := pix.(ssa.Instruction); isI && pi.Parent() == fn {
+							from = pi
+						}
+						successReturn := func(i ssa.Instruction) bool {
+							ret, ok := i.(*ssa.Return)
+							if !ok {
+								return false
+							}
+							if len(ret.Results) == 0 {
+								return true
+							}
+							k, isK := ret.Results[len(ret.Results)-1].(*ssa.Const)
+							return isK && k.IsNil()
+						}
+						bypass, _ := core.Search{Fn: fn, From: from, Target: successReturn, Barrier: instrIs(call)}.Run()
+						if bypass {
+							return false, "the helper that warns (" + cal.Name() + ") can be bypassed"
+						}
+						return warnIn(cal, cal.Params[pi], cal.Params[ui], depth+1)
+					}
+				}
+			}
+			return false, "no test `deviationInPixels >= 1` on DeviationStats' pixel result"
 		}
-		isOne := func(x ssa.Value) bool {
-			k, ok := x.(*ssa.Const)
-			return ok && k.Value != nil && k.Float64() == 1
-		}
-		switch {
-		case pix != nil && cmp.X == pix && isOne(cmp.Y) && cmp.Op == token.GEQ:
-			guard, trueIdx = i, 0
-		case pix != nil && cmp.Y == pix && isOne(cmp.X) && cmp.Op == token.LEQ:
-			guard, trueIdx = i, 0
-		case pix != nil && cmp.X == pix && isOne(cmp.Y) && cmp.Op == token.LSS:
-			guard, trueIdx = i, 1
-		}
-	}
-	okWarn, why := false, "no test `deviationInPixels >= 1` on DeviationStats' pixel result"
-	if guard != nil {
 		// on the >= 1 side a log call prints the unit figure; it is not reachable from the other side
 		var logCall *ssa.Call
-		for _, b := range v.SSA.Blocks {
+		for _, b := range fn.Blocks {
 			for _, in := range b.Instrs {
 				call, ok := in.(*ssa.Call)
 				if !ok || !strings.HasPrefix(core.StaticCalleeID(call), "log.Print") {
@@ -810,14 +862,13 @@ func r48DeviationReported(c *core.Ctx) {
 			}
 		}
 		if logCall == nil {
-			why = "no log call prints the deviation in units"
-		} else {
-			viaOther, _ := core.Search{Fn: v.SSA, Target: instrIs(logCall), Edge: func(b *ssa.BasicBlock, k int) bool { return !(core.BlockIf(b) == guard && k == trueIdx) }}.Run()
-			missed, _ := core.Search{Fn: v.SSA, From: guard, Target: core.IsReturn, Barrier: instrIs(logCall), Edge: func(b *ssa.BasicBlock, k int) bool { return !(core.BlockIf(b) == guard && k != trueIdx) }}.Run()
-			okWarn = !viaOther && !missed
-			why = fmt.Sprintf("the warning is printed without the deviation reaching one pixel (%v) or can be skipped although it does (%v)", viaOther, missed)
+			return false, "no log call prints the deviation in units"
 		}
+		viaOther, _ := core.Search{Fn: fn, Target: instrIs(logCall), Edge: func(b *ssa.BasicBlock, k int) bool { return !(core.BlockIf(b) == guard && k == trueIdx) }}.Run()
+		missed, _ := core.Search{Fn: fn, From: guard, Target: core.IsReturn, Barrier: instrIs(logCall), Edge: func(b *ssa.BasicBlock, k int) bool { return !(core.BlockIf(b) == guard && k != trueIdx) }}.Run()
+		return !viaOther && !missed, fmt.Sprintf("the warning is printed without the deviation reaching one pixel (%v) or can be skipped although it does (%v)", viaOther, missed)
 	}
+	okWarn, why := warnIn(v.SSA, pix, units, 0)
 	c.Check(R, "warns-from-one-pixel/"+v.Name, v.Decl.Pos(), okWarn, "validation logs the deviation in units exactly when DeviationStats reports >= 1 pixel", "the deviation of an uneven grid is not reported as the property assumes: "+why)
 	c.Floor(R, 2)
 }
